@@ -631,6 +631,13 @@ func tryGoReplay(g *Gen, vdir, pid string, r *Result, dir, base string) *goRepla
 		rep.Log = log.String()
 		return rep
 	}
+	// functions over pointers / slices / structs that write nothing the caller can see: same idea, with the
+	// entry-state values the inputs were built from pinned
+	if ok, decided := concreteClauseCheckHeap(o, fx, rp, outs, &log); decided && ok {
+		rep.Reproduced = true
+		rep.Log = log.String()
+		return rep
+	}
 	// compare predicted and real results
 	match := true
 	compared := 0
